@@ -11,7 +11,7 @@ SPEC = dict(
                  'g++ 12 ASan/UBSan/LSan and valgrind memcheck report what they claim to report'],
     legs=[
         Leg('regress', 'h_queue', 'asan', opts={'mode': 'regress'}, quick=1, thorough=1, workers=1, leaks=True, min_cases=1),
-        Leg('model', 'h_queue', 'asan', opts={'mode': 'model'}, quick=24000, thorough=2400000, workers=16, leaks=True),
+        Leg('model', 'h_queue', 'asan', opts={'mode': 'model'}, quick=24000, thorough=600000, workers=16, leaks=True),
         Leg('memcheck', 'h_queue', 'plain', opts={'mode': 'model'}, quick=480, thorough=9600, workers=16, valgrind=True),
     ],
     min_stats={'model': {'cases_with_ring_wraparound': 100, 'cases_with_shrink': 100, 'cases_big': 10, 'type_bool': 1000}, 'regress': {'regress_F55_checked': 1}},
